@@ -142,8 +142,11 @@ def regexp_cases(draw, tier):
 
 @st.composite
 def cfg_cases(draw, tier):
-    if draw(st.booleans()):
+    k = draw(st.integers(0, 2))
+    if k == 0:
         spec = draw(GC.cnf_specs(max_vars=4, max_rules=8))
+    elif k == 1:
+        spec = draw(GC.pseudo_cnf_specs())      # Chomsky-shaped rules, but not in Chomsky normal form
     else:
         spec = draw(GC.cfg_specs(max_vars=3, max_alts=2, max_len=3))
     return {"cfg": spec, "n": draw(st.sampled_from([0, 1, 0, 1, 2, 3, 4 if tier != "quick" else 3]))}
